@@ -276,7 +276,90 @@ fn mutate(rng: &mut Rng, s: &str) -> String {
     String::from_utf8(b).unwrap()
 }
 
+/// Decimal digit strings of the boundaries a literal scanner's accumulators can trip over.
+const BOUNDARIES: &[&str] = &[
+    "2147483648",                               // 2^31
+    "4294967296",                               // 2^32
+    "9223372036854775808",                      // 2^63
+    "18446744073709551616",                     // 2^64
+    "39614081257132168796771975168",            // 2^95
+    "79228162514264337593543950336",            // 2^96 (first mantissa a 96-bit decimal cannot hold)
+    "170141183460469231731687303715884105728",  // 2^127
+    "340282366920938463463374607431768211456",  // 2^128
+    "10000000000000000000000000000",            // 10^28
+    "100000000000000000000000000000",           // 10^29
+    "1000000000000000000",                      // 10^18
+];
+
+/// digits + delta (|delta| small), on decimal strings of any length.
+fn add_small(digits: &str, delta: i64) -> String {
+    let mut d: Vec<i64> = digits.bytes().map(|b| (b - b'0') as i64).collect();
+    let mut carry = delta;
+    let mut i = d.len();
+    while carry != 0 && i > 0 {
+        i -= 1;
+        let v = d[i] + carry;
+        d[i] = v.rem_euclid(10);
+        carry = v.div_euclid(10);
+    }
+    let mut s: String = d.iter().map(|x| (b'0' + *x as u8) as char).collect();
+    if carry > 0 {
+        s = format!("{}{}", carry, s);
+    }
+    let t = s.trim_start_matches('0');
+    if t.is_empty() { "0".to_string() } else { t.to_string() }
+}
+
+/// A literal whose digit string sits within a few units (or a few thousand) of a power-of-two
+/// or power-of-ten boundary, with optional sign, decimal point anywhere and comma grouping.
+fn gen_boundary(rng: &mut Rng) -> String {
+    let base = rng.pick_str(BOUNDARIES);
+    let delta = match rng.below(4) {
+        0 => 0,
+        1 => rng.range(-3, 3),
+        2 => -rng.range(1, 99_999),
+        _ => rng.range(1, 99_999),
+    };
+    let digits = add_small(base, delta);
+    let scale = match rng.below(4) {
+        0 | 1 => 0,
+        2 => rng.usize(digits.len().min(29)),
+        _ => rng.usize(7),
+    };
+    let (int, frac) = digits.split_at(digits.len() - scale.min(digits.len() - 1));
+    let mut out = String::new();
+    if rng.chance(1, 3) {
+        out.push('-');
+    }
+    if rng.chance(1, 3) && int.len() > 3 {
+        let first = int.len() % 3;
+        let mut i = 0;
+        if first > 0 {
+            out.push_str(&int[..first]);
+            i = first;
+        }
+        while i < int.len() {
+            if i > 0 {
+                out.push(',');
+            }
+            out.push_str(&int[i..i + 3]);
+            i += 3;
+        }
+    } else {
+        out.push_str(int);
+    }
+    if !frac.is_empty() {
+        out.push('.');
+        out.push_str(frac);
+    }
+    out
+}
+
 fn gen_near_valid(rng: &mut Rng) -> String {
+    if rng.chance(1, 5) {
+        let v = gen_boundary(rng);
+        return if rng.chance(1, 6) { mutate(rng, &v) } else { v };
+    }
     let max_digits = match rng.below(6) {
         0 => 45,
         1 => 30,
@@ -554,7 +637,7 @@ impl Check for C07 {
     fn rule(&self) -> String {
         "Families: (sigma7) every string over {0,1,5,9,',','.','-'} up to the stated length and (sigma13) every string over \
          digits/comma/dot/minus up to the stated length, in batches of 512 (exhaustive, independent of the seed); (near-valid) \
-         random literals of up to 45 digits / 31 decimals, half of them with one edit; (in-position) literals embedded as posting \
+         random literals of up to 45 digits / 31 decimals, half of them with one edit, one in five within a few units (or a few thousand) of 2^31, 2^32, 2^63, 2^64, 2^95, 2^96, 2^127, 2^128, 10^18, 10^28, 10^29 with the point anywhere; (in-position) literals embedded as posting \
          amount, @ and @@ cost, {} and {{}} lot price, balance assertion, commodity format and eval argument; (cli) okane format \
          echo on files of 12 accepted literals and on one malformed literal. Oracle: independent recogniser of the C07 grammar \
          with exact (mantissa, scale) and the 96-bit/28-decimals representability bound. distinct_nontrivial counts distinct \
